@@ -82,6 +82,7 @@ type Ctx struct {
 	active    atomic.Bool
 	callSeq   atomic.Int64 // incremented at every guarded call
 	callKey   atomic.Value // string
+	callNum   atomic.Int64 // numeric suffix of the key (-1: none); see CallN
 	budgetNs  int64
 }
 
@@ -235,7 +236,7 @@ func (c *Ctx) watchdog() {
 		}
 		lastSeq, lastCPU = seq, now
 		if charged > c.budgetNs && c.active.Load() && c.callSeq.Load() == seq {
-			key, _ := c.callKey.Load().(string)
+			key := c.curKey()
 			buf := make([]byte, 1<<16)
 			n := runtime.Stack(buf, true)
 			c.write(Rec{T: "budget", Unit: c.curUnit, Key: key, CPU: float64(charged) / 1e9, Observed: trimStack(string(buf[:n]))})
@@ -244,7 +245,7 @@ func (c *Ctx) watchdog() {
 		}
 		if tick%4 == 0 && c.active.Load() {
 			if rss := rssBytes(); rss > c.o.MemLimit {
-				key, _ := c.callKey.Load().(string)
+				key := c.curKey()
 				c.write(Rec{T: "mem", Unit: c.curUnit, Key: key, V: int64(rss)})
 				c.flush()
 				os.Exit(ExitMem)
@@ -328,11 +329,25 @@ func (p *PanicInfo) String() string {
 // converts a panic into a PanicInfo.  key identifies the case (it is what a
 // budget / crash event is attributed to).
 func (c *Ctx) Call(key string, f func()) (pi *PanicInfo) {
+	return c.CallN(key, -1, f)
+}
+
+// CallN is Call with the case identified by key + "#" + num; it avoids
+// building a key string per case in bulk sweeps (keyPrefix may be shared by
+// many consecutive calls).
+func (c *Ctx) CallN(key string, num int64, f func()) (pi *PanicInfo) {
 	if c.o.PerCase {
-		c.write(Rec{T: "case", Unit: c.curUnit, Key: key})
+		c.write(Rec{T: "case", Unit: c.curUnit, Key: fullKey(key, num)})
 		c.flush()
 	}
-	c.callKey.Store(key)
+	if num >= 0 {
+		if k, _ := c.callKey.Load().(string); k != key {
+			c.callKey.Store(key)
+		}
+	} else {
+		c.callKey.Store(key)
+	}
+	c.callNum.Store(num)
 	c.callSeq.Add(1)
 	c.active.Store(true)
 	defer func() {
@@ -344,6 +359,18 @@ func (c *Ctx) Call(key string, f func()) (pi *PanicInfo) {
 	}()
 	f()
 	return nil
+}
+
+func fullKey(key string, num int64) string {
+	if num < 0 {
+		return key
+	}
+	return key + "#" + strconv.FormatInt(num, 10)
+}
+
+func (c *Ctx) curKey() string {
+	k, _ := c.callKey.Load().(string)
+	return fullKey(k, c.callNum.Load())
 }
 
 // librarySite extracts the innermost frame that lies in the library under test.
